@@ -28,6 +28,15 @@ class Store:
                 st.conn.close()
             elif self.backend == "peewee":
                 if not st.db.is_closed():
+                    # a store under test may have left a transaction open (that is for the oracles to judge, from the
+                    # committed state); closing must work regardless: abandon whatever is open, as a dying process would
+                    try:
+                        conn = st.db.connection()
+                        while st.db.in_transaction():
+                            st.db.pop_transaction()
+                        conn.rollback()
+                    except Exception:  # noqa: BLE001
+                        pass
                     st.db.close()
         finally:
             if remove and self.path:
